@@ -184,6 +184,28 @@ example : bundleDefect C12ex.envD16 C12ex.stD29 = false ∧
 
 /-! ## Pass -/
 
+/-- **A verifying BCB over the payload yields delivery of the decrypted data – administrative records
+    included.** The receive chain does not look into the payload before the BPSec steps: for *any*
+    payload octets `d` on the wire (the ciphertext of an administrative record, say, which is not
+    itself a decodable record), a BCB numbered `n ≠ 1` over block 1 that verifies and is accepted
+    leads to delivery, the BCB removed and the payload block holding exactly the plaintext
+    `e.plain n 1` – which is what the administrative handler (order 30) then reads. Without
+    acceptance the bundle is delivered unchanged. -/
+theorem C12_bcb_over_payload_delivers_plaintext (e : Env) (n : Nat) (hn : n ≠ 1) (x d : Bytes)
+    (hok : e.orc n 1 = .ok) :
+    run Quirks.current e true
+      [⟨typeBcb, n, x, some { targets := [1], ctxId := coseContextId, paramIds := [5], results := [[16]] }⟩,
+       ⟨1, 1, d, none⟩] =
+    (if e.accept then ⟨true, false, none, [⟨1, 1, e.plain n 1, none⟩]⟩
+     else ⟨true, false, none,
+       [⟨typeBcb, n, x, some { targets := [1], ctxId := coseContextId, paramIds := [5], results := [[16]] }⟩,
+        ⟨1, 1, d, none⟩]⟩) := by
+  have h1 : (1 == n) = false := by simpa using (Ne.symm hn)
+  have h2 : (n == 1) = false := by simpa using hn
+  cases hacc : e.accept <;>
+    simp [run, stepRun, Quirks.current, iterCopy, sel, verifyBlock, verifyAsb, checkSecblk, checkResults, hasDup,
+      targetLoop, present, hok, hacc, writePlain, removeBlk, optList, verdict, typeBcb, typeBib, coseContextId, h1, h2, hn, List.filter]
+
 /-- **C12 pass.** (Any quirk set, in particular the code as it is.) If every security block is clean
     – dissected, known context, no duplicate ids, every target present with exactly one result that
     verifies – and no security block targets another security block (and, only for a quirk set with
